@@ -244,7 +244,12 @@ def _inplace_call(x, x_env, st):
         ax = p.get("axis")
         return x.squeeze(None if ax is None else tuple(ax), inplace=True)
     if op == "expand_dims":
-        return x.expand_dims(p["axis"], inplace=True)
+        kw = {}
+        if p.get("c") is not None:
+            kw["c"] = ser.dec_charge(p["c"], sym)
+        if p.get("dual") is not None:
+            kw["dual"] = p["dual"]
+        return x.expand_dims(p["axis"], inplace=True, **kw)
     if op == "fuse":
         kw = {}
         if not x.fermionic and "mode" in p:
